@@ -17,6 +17,9 @@ for mid in sorted(d for d in os.listdir(sd) if os.path.isdir(os.path.join(sd, d)
     desc = ' '.join(meta.get('needs_to_manifest', '').replace('|', '/').split())
     r = res.get(mid, {})
     own = 'retired (edited code removed by a repair)' if meta.get('retired') else r.get(meta['breaks_property'] + ':quick', '?')
+    for cc in meta.get('cross_checks', []):
+        if own != 'caught' and r.get(cc + ':quick') == 'caught':
+            own += '; caught by %s' % cc
     if len(desc) > 330:
         desc = desc[:327] + '...'
     print('| %s | %s | %s (%s%s) | %s |' % (mid, meta['breaks_property'], desc, ', '.join(os.path.basename(f) for f in files),
